@@ -645,6 +645,7 @@ static void pair_case(Ctx& ctx, const Raw& d, const std::vector<Raw>& all, int t
     const base_array<T>& cx = x;
     std::vector<T> vals((size_t)cnt);
     long pairs = 0;
+    std::map<const char*, long> hist, hist_path;   // keyed by the literal's address: flushed once per case
     for (const Raw& s : all) {
         if ((int)s.idx.size() != cnt) continue;
         for (int k = 0; k < cnt; ++k) vals[(size_t)k] = init[(size_t)s.idx[(size_t)k]];   // "as if the source had been copied first"
@@ -664,9 +665,11 @@ static void pair_case(Ctx& ctx, const Raw& d, const std::vector<Raw>& all, int t
                 ctx.state(h);
             }
         }
-        ctx.note(std::string("pair.") + ok, 2);
-        ctx.note(std::string("pair.path=") + path, 2);
+        hist[ok] += 2;
+        hist_path[path] += 2;
     }
+    for (auto& kv : hist) ctx.note(std::string("pair.") + kv.first, kv.second);
+    for (auto& kv : hist_path) ctx.note(std::string("pair.path=") + kv.first, kv.second);
     if (!g_asan) {
         ctx.transitions += (uint64_t)pairs;
         ctx.traces += (uint64_t)pairs;
@@ -897,21 +900,22 @@ static void install_death_handlers(Ctx& ctx) {
 template<class T>
 static void run_type(Ctx& ctx, int tcode, bool Th) {
     const char* tn = El<T>::name();
-    const int NR = 10;
-    // -------- reads: the whole box of the property
+    // -------- reads: the whole box of the property (n <= 10, steps -5..5); thorough: n <= 32 (asan pass 16), steps -8..8
+    const int NR = Th ? (g_asan ? 16 : 32) : 10;
+    const int SR = Th ? 8 : 5;
     if (ctx.wants("slice.read") || ctx.wants("slice.read.end")) {
         for (int cst = 0; cst < 2; ++cst)
             for (int n = 0; n <= NR; ++n)
                 for (int i1 = -n - 3; i1 <= n + 3; ++i1) {
                     for (int i2 = -n - 3; i2 <= n + 3; ++i2)
-                        for (int st = -5; st <= 5; ++st) {
+                        for (int st = -SR; st <= SR; ++st) {
                             Sel o = oracle(n, i1, i2, st);
                             if (!ctx.take("slice.read", P().kv("T", tn).kv("const", cst).kv("n", n).kv("i1", i1).kv("i2", i2).kv("step", st).kv("cnt", (long long)o.idx.size())))
                                 continue;
                             if (cst) read_case<T, true>(ctx, n, i1, i2, st, false, o);
                             else read_case<T, false>(ctx, n, i1, i2, st, false, o);
                         }
-                    for (int st = -5; st <= 5; ++st) {
+                    for (int st = -SR; st <= SR; ++st) {
                         Sel o = oracle(n, i1, n, st);
                         if (!ctx.take("slice.read.end", P().kv("T", tn).kv("const", cst).kv("n", n).kv("i1", i1).kv("step", st).kv("cnt", (long long)o.idx.size()))) continue;
                         if (cst) read_case<T, true>(ctx, n, i1, n, st, true, o);
@@ -920,9 +924,9 @@ static void run_type(Ctx& ctx, int tcode, bool Th) {
                 }
     }
     // -------- writes
-    const int NA = g_asan ? (Th ? 10 : 8) : 10;                       // scalar / array / list
-    const int ND = g_asan ? (Th ? 10 : 6) : (Th ? 10 : 8);            // destination n for slice right-hand sides
-    const int N2 = g_asan ? (Th ? 4 : 3) : (Th ? 6 : 4);              // n of the other array
+    const int NA = g_asan ? (Th ? 12 : 8) : (Th ? 16 : 10);           // scalar / array right-hand sides
+    const int ND = g_asan ? (Th ? 10 : 6) : (Th ? 12 : 8);            // destination n for slice right-hand sides
+    const int N2 = g_asan ? (Th ? 4 : 3) : (Th ? 7 : 4);              // n of the other array
     std::vector<std::vector<Raw>> valid((size_t)NA + 1);
     for (int n = 1; n <= NA; ++n) valid[(size_t)n] = valid_slices(n, 3, 5);
     for (int n = 1; n <= NA; ++n)
@@ -954,7 +958,7 @@ static void run_type(Ctx& ctx, int tcode, bool Th) {
             }
     }
     // -------- E2: pairs on one array, closure over contents
-    const int NP = g_asan ? (Th ? 8 : 5) : (Th ? 8 : 6);
+    const int NP = g_asan ? (Th ? 8 : 5) : (Th ? 10 : 6);
     if (ctx.wants("alias.pair"))
         for (int n = 1; n <= NP; ++n) {
             std::vector<Raw> all = valid_slices(n, 0, n);
@@ -963,7 +967,7 @@ static void run_type(Ctx& ctx, int tcode, bool Th) {
                 pair_case<T>(ctx, d, all, tcode);
             }
         }
-    const int NC = g_asan ? (Th ? 4 : 3) : (Th ? 5 : 4);
+    const int NC = g_asan ? (Th ? 5 : 3) : (Th ? 6 : 4);
     for (int n = 1; n <= NC; ++n)
         for (int kind = 0; kind < 2; ++kind) {
             if (!ctx.take("alias.closure", P().kv("T", tn).kv("n", n).kv("rhs", kind ? "const_slice" : "slice"))) continue;
@@ -971,13 +975,15 @@ static void run_type(Ctx& ctx, int tcode, bool Th) {
         }
     // -------- large n lattice
     if (ctx.wants("large")) {
-        std::vector<int> big = {1000};
-        if (!g_asan || Th) big.push_back(100000);
+        // both tiers, both passes: n = 1000, 5000 (> 4096) and 200000 (> 65536; steps 65537, 70000, n/2, n-1, n, n+1 and
+        // counts 200000, 100000, 66667 exceed 65536); thorough adds 100000
+        std::vector<int> big = {1000, 5000, 200000};
+        if (Th) big.push_back(100000);
         for (int n : big) {
             Arr<T> x(n), y(n, true);
             const std::vector<T> init = x.vec();
             const int iv[] = {0, 1, -1, 2, -2, n / 2, -n / 2, n - 1, -(n - 1), n, -n, n + 1, -(n + 1)};
-            const int sv[] = {1, 2, 3, 7, n / 2, n - 1, n, n + 1};
+            const int sv[] = {1, 2, 3, 7, n / 2, n - 1, n, n + 1, n > 100000 ? 65537 : 5, n > 100000 ? 70000 : 11};
             for (int cst = 0; cst < 2; ++cst)
                 for (int i1 : iv)
                     for (int i2 : iv)
